@@ -96,6 +96,20 @@ FACT_DEPS = {
     'sjsonOptions': ['C15', 'C16'],
     'diffContext': ['C02', 'C13'],
     'structural': ['C05', 'C06', 'C12', 'C15', 'C20'],
+    # primitives the run-time semantics of the transliterations assumes (tools/extract/prims.go)
+    'prim events.register': ['C06', 'C20'],
+    'prim newTestEvents': ['C20'],
+    'prim syncSlice.append': ['C06', 'C08', 'C09', 'C20'],
+    'prim newSyncSlice': ['C08', 'C09'],
+    'prim set.Has': ['C07', 'C08', 'C09'],
+    'prim newRegistry': ['C03', 'C07', 'C09'],
+    'prim newStandaloneRegistry': ['C03', 'C19', 'C09'],
+    'prim snapshotScanner': ['C01', 'C03', 'C04', 'C07', 'C10', 'C18'],
+    'prim Any': ['C15', 'C16', 'C17'],
+    'prim Custom': ['C15', 'C16', 'C17'],
+    'prim Type': ['C15', 'C16', 'C17'],
+    'prim typePlaceholder': ['C16'],
+    'prim typeCheck': ['C16', 'C17'],
 }
 
 def regenerate(ctx):
